@@ -11,6 +11,8 @@ from .values import base_axioms
 class Unit:
     name = "?"
     props = ()
+    optional_provides = None   # {substring of obligation name: optional invariant it establishes}
+    default_props = None    # props of obligations that name none (default: all of `props`)
     fmodel = "ORDER"
     functions = ()          # [(module, qualname)] real functions executed / specified by this unit
     bounded = None          # None = unbounded proof; else a string stating the bound
@@ -76,19 +78,47 @@ def run_unit(unit, tier="quick", prefix=(), split=0):
                     ob.verdict, ob.backend, ob.secs, ob.model = "also-failing", "skipped", 0.0, None
                 else:
                     discharge(ob, timeout)
+                    needs = None
+                    if ob.verdict != "unsat" and ob.optional:
+                        # failed without the optional invariants: try again with them; if that succeeds the obligation is
+                        # discharged *conditionally* and names the invariants the check must then find established
+                        ob2 = Obligation(ob.name, list(ob.pc) + [f for _, f in ob.optional], ob.goal, ob.info)
+                        ob2.hints = ob.hints
+                        discharge(ob2, timeout)
+                        ob.secs += ob2.secs
+                        if ob2.verdict == "unsat":
+                            needs = sorted({n for n, _ in ob.optional})
+                            ob.verdict, ob.model, ob.zmodel = "unsat", None, None
+                            ob.backend = ob2.backend + "+optional:" + ",".join(needs)
                     if ob.verdict == "sat":
                         refuted.add(ob.name)
                 out["solver_s"] += ob.secs
                 rec = {"name": ob.name, "verdict": ob.verdict, "backend": ob.backend, "secs": round(ob.secs, 4),
                        "model": ob.model, "path": "".join("T" if d else "F" for d in (ob.path or [])),
-                       "props": list(ob.info.get("props", unit.props)), "kind": ob.info.get("kind", "contract"),
+                       "props": list(ob.info.get("props") or getattr(unit, "default_props", None) or unit.props), "kind": ob.info.get("kind", "contract"),
                        "note": ob.info.get("note"), "fmodel": ob.info.get("fmodel", unit.fmodel)}
-                if ob.verdict in ("sat", "candidate") and ob.zmodel is not None and unit.replay:
+                if ob.verdict == "unsat" and "+optional:" in (ob.backend or ""):
+                    rec["needs"] = ob.backend.split("+optional:")[1].split(",")
+                prov = ob.info.get("provides") or next((v for k, v in (unit.optional_provides or {}).items() if k in ob.name), None)
+                if prov:
+                    rec["provides"] = prov
+                if ob.verdict == "sat" and ob.info.get("replay_inputs") is not None and unit.replay:
+                    rec["replay_inputs"] = ob.info["replay_inputs"]      # a concrete failing case recorded by a bounded unit
+                elif ob.verdict in ("sat", "candidate") and ob.zmodel is not None and unit.replay:
                     try:
                         rec["replay_inputs"] = concretize(c.named, ob.zmodel)
                         rec["replay_inputs"]["vcx_obligation"] = ob.name
                     except Exception as e:  # noqa
                         rec["replay_inputs_error"] = repr(e)
+                    if ob.verdict == "candidate" and "replay_inputs" in rec:
+                        # a model of the *weakened* (finitely expanded) query: decide it at once by the native replay, so that a
+                        # confirmed counterexample stops the search for more of them on the remaining paths
+                        res_ = native_replay_inputs(unit.replay, rec["replay_inputs"])
+                        rec["candidate_replayed"] = bool(res_.get("reproduced"))
+                        if rec["candidate_replayed"]:
+                            ob.verdict = rec["verdict"] = "sat"
+                            rec["backend"] = ob.backend = (ob.backend or "") + "+native-replay"
+                            refuted.add(ob.name)
                 out["obligations"].append(rec)
     except Unsupported as e:
         out["error"] = "Unsupported: " + str(e) + "\n" + traceback.format_exc(limit=12)
@@ -101,6 +131,38 @@ def run_unit(unit, tier="quick", prefix=(), split=0):
         out["error_kind"] = "engine"
     out["wall_s"] = round(time.time() - t0, 3)
     return out
+
+
+def native_replay_file(replay_file):
+    """Run the z3-free native replay under the repository's own interpreter."""
+    import json, os, subprocess, sys
+    from .transform import repo_root
+    verif = os.path.dirname(os.path.dirname(os.path.abspath(__file__)))
+    py = "/venv/bin/python" if os.path.exists("/venv/bin/python") else sys.executable
+    env = dict(os.environ)
+    env["PYTHONPATH"] = verif + os.pathsep + repo_root()
+    env["REPO"] = repo_root()
+    try:
+        p = subprocess.run([py, os.path.join(verif, "pyvc", "replay_native.py"), replay_file],
+                           capture_output=True, text=True, timeout=300, env=env, cwd=verif)
+        last = [l for l in p.stdout.strip().splitlines() if l.startswith("{")]
+        if last:
+            return json.loads(last[-1])
+        return {"reproduced": False, "error": (p.stdout + p.stderr)[-800:]}
+    except Exception as e:  # noqa
+        return {"reproduced": False, "error": repr(e)}
+
+
+def native_replay_inputs(replay, inputs):
+    import json, os, tempfile
+    from .transform import repo_root
+    fd, tmp = tempfile.mkstemp(prefix="vcx-cand-", suffix=".json")
+    try:
+        with os.fdopen(fd, "w") as fh:
+            json.dump({"repo": repo_root(), "native": {"module": replay[0], "function": replay[1], "inputs": inputs}}, fh, default=str)
+        return native_replay_file(tmp)
+    finally:
+        os.unlink(tmp)
 
 
 def _frac(v):
